@@ -111,7 +111,7 @@ pub fn decimal_strings(rng: &mut Rng, n: usize) -> Vec<String> {
 }
 
 pub fn gen(rng: &mut Rng, tier: &str) -> Vec<Line> {
-  let n_rand: usize = if tier == "thorough" { 400_000 } else { 1_000 };
+  let n_rand: usize = if tier == "thorough" { 40_000 } else { 1_000 };
   let mut v = Vec::new();
   // amounts x every divisibility 0..=38
   let amounts = boundary_u128(rng, n_rand);
